@@ -77,7 +77,7 @@ func (w *failWriter) Write(p []byte) (int, error) {
 	return n, nil
 }
 
-var resScenarios = []string{"builder-close", "build-close", "build-fail", "parse-close", "parse-fault", "parse-fault", "parse-fault", "revisit-merge", "reader", "reader-badoffset", "marshal-fail"}
+var resScenarios = []string{"builder-close", "build-close", "build-fail", "parse-close", "parse-fault", "parse-fault", "parse-fault", "revisit-merge", "revisit-built-merge", "revisit-built-merge", "reader", "reader-badoffset", "marshal-fail"}
 
 func genRes(r *rand.Rand, n int, tier string, out *bufio.Writer) {
 	for i := 0; i < n; i++ {
@@ -160,7 +160,7 @@ func runRes(toks []string) (string, string) {
 				rec.Close()
 			}
 			rb.Close()
-		case "parse-close", "parse-fault", "marshal-fail", "revisit-merge":
+		case "parse-close", "parse-fault", "marshal-fail", "revisit-merge", "revisit-built-merge":
 			rb := newBuilder()
 			orig, _, err := rb.Build()
 			if err != nil {
@@ -197,6 +197,43 @@ func runRes(toks []string) (string, string) {
 			case "marshal-fail":
 				gowarc.NewMarshaler().Marshal(&failWriter{after: fault % (wire.Len() + 1)}, orig, 0)
 				mark("marshaled")
+				orig.Close()
+			case "revisit-built-merge":
+				// a revisit record that comes from a builder of its own (its block spills like any
+				// other content) or from the parser, merged with the record it refers to
+				if kind != "h" {
+					orig.Close()
+					return
+				}
+				head := []byte("HTTP/1.1 200 OK\r\nContent-Type: text/plain\r\n\r\n")
+				rb2 := gowarc.NewRecordBuilder(gowarc.Revisit, opts...)
+				rb2.AddWarcHeader("WARC-Date", "2021-05-06T07:08:10Z")
+				rb2.AddWarcHeader("Content-Type", "application/http")
+				rb2.AddWarcHeader("WARC-Target-URI", "http://example.com/")
+				rb2.AddWarcHeader("WARC-Profile", gowarc.ProfileServerNotModifiedV1_1)
+				rb2.AddWarcHeader("WARC-Refers-To", "<"+orig.RecordId()+">")
+				rb2.Write(head)
+				rev, _, err := rb2.Build()
+				mark("revisit")
+				if err == nil && rev != nil {
+					if fault%2 == 1 {
+						// the same through the parser
+						var w2 bytes.Buffer
+						gowarc.NewMarshaler().Marshal(&w2, rev, 0)
+						rev.Close()
+						rev, _, _, err = gowarc.NewUnmarshaler(opts...).Unmarshal(bufio.NewReader(&w2))
+					}
+					if err == nil && rev != nil {
+						merged, _ := rev.Merge(orig)
+						mark("merged")
+						if merged != nil {
+							merged.Close()
+						}
+					}
+				}
+				if rev != nil {
+					rev.Close()
+				}
 				orig.Close()
 			case "revisit-merge":
 				if kind != "h" {
